@@ -879,6 +879,12 @@ impl Inner {
             .await?;
 
         trace!("accept: verified authorization");
+        #[cfg(feature = "verif-hooks")]
+        iroh_base::verif_hooks::point_async(
+            "relay:accept:after_admission",
+            &request.connection_id().to_string(),
+        )
+        .await;
 
         let io = RelayedStream {
             inner: io,
